@@ -31,14 +31,14 @@ def S(*names):
 
 def inst(name, peers, conns, tags=("t",), tagpeers=None, vals="{1, 2}", low=1, high=2, grace=1, maxage=1,
          silence=0, force=True, profile=1, prot2=(), prot1=(), decaymax=0, decayevery=1, split=False, maxburst=2,
-         dkinds=("fixed1",), bkinds=("bounded",), deltas="{1}", scale=""):
+         dkinds=("fixed1",), bkinds=("bounded",), deltas="{1}", scale="", uwindow=False):
     return name + ("@" + scale if scale else ""), {
         "Peers": S(*peers), "Conns": S(*conns), "Tags": S(*tags),
         "TagPeers": S(*(peers if tagpeers is None else tagpeers)), "Vals": vals, "Low": low, "High": high,
         "Grace": grace, "MaxAge": maxage, "Silence": silence, "HasForce": "TRUE" if force else "FALSE",
         "Profile": profile, "Prot2": S(*prot2), "Prot1": S(*prot1), "DecayMax": decaymax, "DecayEvery": decayevery,
         "Split": "TRUE" if split else "FALSE", "MaxBurst": maxburst,
-        "DecayKinds": S(*dkinds), "BumpKinds": S(*bkinds), "Deltas": deltas}
+        "DecayKinds": S(*dkinds), "BumpKinds": S(*bkinds), "Deltas": deltas, "UWindow": "TRUE" if uwindow else "FALSE"}
 
 
 P3 = ("p1", "p2", "p3")
@@ -130,8 +130,8 @@ def _gate_scripts(g, seed, cap):
         vals = [st[k][0][p][3] for p in cands if st[k][0][p][0] == "c"]
         return len(vals) != len(set(vals))
 
-    def mk(entry, pre, window, post, final, mayprune):
-        return {"entry": entry, "prefix": pre, "window": [g.edges[e][1] for e in window],
+    def mk(entry, pre, window, post, final, mayprune, upsert=None):
+        return {"entry": entry, "prefix": pre, "window": [g.edges[e][1] for e in window], "upsert": upsert,
                 "post": [g.edges[e][1] for e in post], "final": st[final], "mayprune": mayprune}
 
     def select_of(k):
@@ -190,9 +190,24 @@ def _gate_scripts(g, seed, cap):
                         back.append(sc)
                     else:
                         same.append(sc)
-    counts = {"went_and_came_back": len(back), "single": len(single), "post": len(post), "same_peer_pairs": len(same),
+    # user callbacks: one foreign step on the SAME peer delivered inside UpsertTag's callback (possible only if
+    # the segment lock is free there; the tag ledger gives the verdict, so no model state is needed)
+    upcb = []
+    for sk in sorted(prev):
+        ups = [g.edges[e][1] for e in g.out.get(sk, ()) if g.edges[e][1]["name"] == "upsert"]
+        if not ups:
+            continue
+        pre = prefix(sk)
+        for up in ups:
+            for e1 in g.out.get(sk, ()):
+                o1 = g.edges[e1][1]
+                if o1["name"] in ("connected", "disconnected", "tag", "untag") and o1.get("p") == up["p"]:
+                    upcb.append(mk("upsert", pre, [e1], [], sk, [], upsert=up))
+    rnd.shuffle(upcb)
+    upcb = upcb[:max(200, cap // 4)]
+    counts = {"upsert_callback": len(upcb), "went_and_came_back": len(back), "single": len(single), "post": len(post), "same_peer_pairs": len(same),
               "other_pairs": len(other)}
-    scripts = list(back)
+    scripts = list(back) + upcb
     for pool in (single, post, same, other):
         rnd.shuffle(pool)
         scripts += pool[:max(0, cap - len(scripts))]
@@ -210,7 +225,7 @@ def _gate_instance(args):
     conf = [o for t, o in r.prints if t == "VFCONF"]
     g = graph.Graph(r.inits, r.edges)
     scripts, counts = _gate_scripts(g, ctx.seed, cap)
-    if not counts["went_and_came_back"] or not counts["single"] or not counts["post"]:
+    if not counts["went_and_came_back"] or not counts["single"] or not counts["post"] or not counts["upsert_callback"]:
         raise MachineryError("vacuity guard: interference script families %s from %s" % (counts, name))
     with open(os.path.join(out_dir, name + ".jsonl"), "w") as f:
         f.write(json.dumps({"header": {"name": name, "conf": conf[0], "init": g.states[g.inits[0]]}}, sort_keys=True) + "\n")
@@ -218,6 +233,10 @@ def _gate_instance(args):
             sc["id"] = i
             f.write(json.dumps(sc, sort_keys=True) + "\n")
     return name, r.distinct, r.generated, g.n_edges(), len(scripts), counts, r.wall
+
+
+# the concurrent variant with the UpsertTag callback window (UBegin / one foreign step / UEnd), checked only
+UWIN = inst("uwin", P3, ("p1a", "p2a", "p3a"), vals="{1}", prot1=("p3",), profile=1, split=True, maxburst=2, uwindow=True)
 
 
 def exhaustive_instances(ctx):
@@ -228,8 +247,9 @@ def exhaustive_instances(ctx):
             inst("big-b", P3, ("p1a", "p1b", "p2a", "p2b", "p3a"), maxage=1, silence=2, low=2, high=3,
                  prot2=("p1",), prot1=("p2",), profile=2),
             inst("big-c", P3, ("p1a", "p2a", "p3a"), maxage=1, decaymax=2, decayevery=2, prot1=("p1",), profile=2),
+            UWIN,
         ]
-    return [inst("big-q", P3, ("p1a", "p1b", "p2a", "p3a"), maxage=1, prot2=("p1",), prot1=("p2",), profile=3)]
+    return [inst("big-q", P3, ("p1a", "p1b", "p2a", "p3a"), maxage=1, prot2=("p1",), prot1=("p2",), profile=3), UWIN]
 
 
 def _exhaustive(args):
@@ -380,7 +400,7 @@ def run(ctx):
     div += classify_mismatches(ctx, overlap, "overlap")
     div += classify_mismatches(ctx, decay, "decay")
     div += classify_mismatches(ctx, extremes, "extremes")
-    if extremes["replayed"] < 100 or not (extremes.get("extra") or {}).get("trims_closing"):
+    if not extremes["mismatches"] and (extremes["replayed"] < 100 or not (extremes.get("extra") or {}).get("trims_closing")):
         raise MachineryError("vacuity guard: extreme-value histories %s" % extremes.get("extra"))
     dx = decay.get("extra") or {}
     if not decay["mismatches"] and not (dx.get("removals_with_residual") and dx.get("racing_steps") and dx.get("closes")):
